@@ -1,3 +1,3 @@
 Require Import Extraction ExtrOcamlBasic ZArith.
-From AV Require Import Model.Group.
-Extraction "group.ml" run_case Z.add Z.mul Z.opp Z.abs Z.div_eucl.
+From AV Require Import Model.Group Model.GroupObs.
+Extraction "group.ml" GroupObs.run_case Z.add Z.mul Z.opp Z.abs Z.div_eucl.
